@@ -4334,7 +4334,7 @@ var propPkgs = map[string][]string{
 	"C15": {"querylog.", "dnssvc/internal/mainmw.", "dnssvc/internal/ratelimitmw.", "profiledb", "access.", "filter/internal."},
 	"C16": {"billstat.", "backendpb.", "dnssvc/internal/mainmw.", "dnssvc/internal/ratelimitmw.", "dnssvc/internal/preservice.", "agdservice.", "geoip.", "ecscache.", "dnsserver."},
 	"C17": {"dnsserver/forward.", "dnsserver/pool.", "dnsserver/prometheus.", "cmd."},
-	"C18": {"connlimiter.", "dnsserver.", "dnssvc.", "cmd."},
+	"C18": {"connlimiter.", "bindtodevice.", "dnsserver.", "dnssvc.", "cmd."},
 	"C19": {"websvc.", "cmd."},
 	"C20": {"cmd.", "dnssvc.", "dnsserver.", "websvc."},
 }
@@ -4383,6 +4383,7 @@ func classSweep(c *an.Ctx, prop string) {
 	add("prefix-bitlen", sharedPrefixOfSameAddr(c, rule, pk...))
 	add("locks-released", sharedLockReleased(c, rule, pk...))
 	add("nil-receivers", sharedNilReceiverPath(c, rule, pk...))
+	add("sends-under-lock", sharedSendsUnderLock(c, rule, pk...))
 	n := 0
 	for _, p := range pk {
 		n += sharedNoShallowCopy(c, rule, p, "github.com/miekg/dns.Msg")
@@ -6387,6 +6388,126 @@ func sharedNilReceiverPath(c *an.Ctx, rule string, prefixes ...string) (examined
 				"nothing reachable from the nil edge touches the receiver's fields",
 				"on the path where the receiver is nil "+bad+": the method panics for the absent component it was written to tolerate")
 		}
+	}
+	return examined
+}
+
+// mutexLockKind classifies a call as a Lock or an Unlock of a sync mutex.
+func mutexLockKind(call ssa.CallInstruction) string {
+	switch an.CalleeName(call) {
+	case "(*sync.Mutex).Lock", "(*sync.RWMutex).Lock", "(*sync.RWMutex).RLock":
+		return "lock"
+	case "(*sync.Mutex).Unlock", "(*sync.RWMutex).Unlock", "(*sync.RWMutex).RUnlock":
+		return "unlock"
+	}
+	if call.Common().IsInvoke() {
+		switch call.Common().Method.Name() {
+		case "Lock":
+			return "lock"
+		case "Unlock":
+			return "unlock"
+		}
+	}
+	return ""
+}
+
+// heldMutexAt returns the access path of a mutex that fn itself has locked
+// and may still hold at ins: a (non-deferred) Lock dominates ins and a path
+// leads from it to ins that passes no explicit Unlock of the same mutex (a
+// deferred Unlock releases nothing before the function returns).  "" if none.
+func heldMutexAt(fn *ssa.Function, ins ssa.Instruction) (held string) {
+	calls := an.Calls(fn)
+	for _, call := range calls {
+		if mutexLockKind(call) != "lock" {
+			continue
+		}
+		if _, isDefer := call.(*ssa.Defer); isDefer || !an.Dominates(call, ins) {
+			continue
+		}
+		recv := call.Common().Value
+		if !call.Common().IsInvoke() {
+			recv = call.Common().Args[0]
+		}
+		path, ok := an.AccessPath(recv)
+		if !ok {
+			continue
+		}
+		unlocks := map[ssa.Instruction]bool{}
+		for _, u := range calls {
+			if _, isDefer := u.(*ssa.Defer); isDefer || mutexLockKind(u) != "unlock" {
+				continue
+			}
+			r2 := u.Common().Value
+			if !u.Common().IsInvoke() {
+				r2 = u.Common().Args[0]
+			}
+			if p2, ok := an.AccessPath(r2); ok && p2 == path {
+				unlocks[u] = true
+			}
+		}
+		blk, idx := an.After(call)
+		seen := map[*ssa.BasicBlock]bool{}
+		type st struct {
+			b *ssa.BasicBlock
+			i int
+		}
+		work := []st{{blk, idx}}
+		reached := false
+		for len(work) > 0 && !reached {
+			w := work[len(work)-1]
+			work = work[:len(work)-1]
+			stop := false
+			for j := w.i; j < len(w.b.Instrs); j++ {
+				if unlocks[w.b.Instrs[j]] {
+					stop = true
+					break
+				}
+				if w.b.Instrs[j] == ins {
+					reached = true
+					break
+				}
+			}
+			if stop || reached {
+				continue
+			}
+			for _, succ := range w.b.Succs {
+				if !seen[succ] {
+					seen[succ] = true
+					work = append(work, st{succ, 0})
+				}
+			}
+		}
+		if reached {
+			held = path
+		}
+	}
+	return held
+}
+
+// sharedSendsUnderLock records (information only: by itself it breaks no
+// property) every channel send outside a select that is made while a mutex of
+// the enclosing function is held: such a send keeps everybody who needs the
+// mutex waiting for the channel's receiver.  Returns the number of sends
+// examined.
+func sharedSendsUnderLock(c *an.Ctx, rule string, prefixes ...string) (examined int) {
+	for _, fn := range c.AllFns {
+		if fn.Blocks == nil || c.IsTestFile(fn.Pos()) || !c.Prog.InRepo(fn) || !hasAnyPrefix(an.FnKey(fn), prefixes) {
+			continue
+		}
+		i := 0
+		an.Instrs(fn, func(in ssa.Instruction) {
+			s, ok := in.(*ssa.Send)
+			if !ok {
+				return
+			}
+			i++
+			examined++
+			c.Analysed(an.FnKey(fn))
+			if held := heldMutexAt(fn, s); held != "" {
+				c.Inf(rule, fmt.Sprintf("%s: channel send %d is made with a mutex held", an.FnKey(fn), i), s.Pos(),
+					"the send at %s can block while %s is held: whoever needs that mutex (Close of the same object, for one) waits for the channel's receiver", c.Pos(s.Pos()), held)
+			}
+		})
 	}
 	return examined
 }
